@@ -185,6 +185,11 @@ class Gateway:
         sensor = self.sensors[sensor_id]
 
         if sensor.is_smart_sleep_node:
+            # The command is created with the gateway protocol version at wake-up.
+            # Refuse a value now that could not be sent then.
+            self.create_message_to_set_sensor_value(
+                sensor, child_id, value_type, value, **kwargs
+            )
             sensor.set_child_desired_state(child_id, value_type, value)
             return
 
